@@ -18,7 +18,7 @@ const REGION: &str = "us-east-1";
 const DATE_HDR: &str = "Thu, 29 Feb 2024 12:00:00 GMT";
 
 #[derive(Clone, Copy, Debug, PartialEq, Eq)]
-enum Class {
+pub enum Class {
     Anonymous,
     V4Header,
     V4HeaderBadSig,
@@ -35,7 +35,7 @@ enum Class {
     MalformedV2,
 }
 
-const CLASSES: &[Class] = &[
+pub const CLASSES: &[Class] = &[
     Class::Anonymous,
     Class::V4Header,
     Class::V4HeaderBadSig,
@@ -83,7 +83,7 @@ fn flip_hex(sig: &str) -> String {
 }
 
 /// (request, body) for the class; None if the class cannot be built for this base request
-fn dress(base: &sdk::BaseReq, class: Class) -> Option<(Req, Vec<u8>)> {
+pub fn dress(base: &sdk::BaseReq, class: Class) -> Option<(Req, Vec<u8>)> {
     let mut r = base.req.clone();
     let body = base.body.clone();
     let scope = Scope::new(AK, DAY, REGION, "s3");
